@@ -122,6 +122,10 @@ type txSpec struct {
 	deliveries []txDelivery
 	holders    map[string]bool // which peers will serve the body
 	inBlock    int             // index into blocks, -1 = never
+	// outageUntil > 0: the output service cannot answer for this transaction's inputs until this
+	// offset; its first delivery is a body pushed by an untrusted peer inside the outage (the node
+	// has to forget it), everything else comes later
+	outageUntil time.Duration
 }
 
 type blockSpec struct {
@@ -152,6 +156,9 @@ func (sc *txScenario) String() string {
 	fmt.Fprintf(&sb, "%s untrusted=%d safeDelay=%dms preempt=1/%d lat=%v+%v restart=%v drop=%v txs=[", sc.knobs, sc.untrusted, sc.safeDelay, sc.preemptDen, sc.latBase, sc.latJitter, sc.restartAt, sc.dropAt)
 	for _, t := range sc.txs {
 		fmt.Fprintf(&sb, "T%d{rel=%v in=%d blk=%d", t.idx, t.relevant, len(t.spends), t.inBlock)
+		if t.outageUntil > 0 {
+			fmt.Fprintf(&sb, " outage<%v", t.outageUntil)
+		}
 		for _, d := range t.deliveries {
 			fmt.Fprintf(&sb, " %s:%s@%v", d.src, d.kind, d.at)
 		}
@@ -178,6 +185,7 @@ type txGenOpts struct {
 	silentPeers bool // some announcements are never honoured
 	blockConflicts bool // blocks may confirm a tx that conflicts with an unconfirmed one not in the block
 	dropConn bool // the trusted connection may be lost once (the node reconnects and catches up while not in sync)
+	outage   bool // some transactions are first pushed by an untrusted peer while their inputs cannot be fetched
 	// C08: custom scripts and subscriptions
 	prepare  func(ns *NodeSim)
 	mkTx     func(w *TxWorld, spends []wire.OutPoint, nOut int) (*wire.MsgTx, bool)
@@ -220,8 +228,14 @@ func genTxScenario(c *Ctx, w *TxWorld, o txGenOpts) *txScenario {
 		ts := &txSpec{idx: i, inBlock: -1, holders: map[string]bool{}}
 		// inputs
 		nin := 1 + int(t.Choose(2))
+		outage := o.outage && sc.untrusted > 0 && o.mkTx == nil && t.Bool(1, 5)
 		for j := 0; j < nin; j++ {
 			var op wire.OutPoint
+			if outage {
+				// outpoints of its own: the outage concerns this transaction only
+				ts.spends = append(ts.spends, w.Fund(uint64(40000+i*10+j)))
+				continue
+			}
 			wantConflict := o.conflicts > 0 && len(used) > 0 && t.Bool(uint32(o.conflicts), 4)
 			if o.chains && i > 0 && t.Bool(1, 4) && !wantConflict {
 				parent := sc.txs[t.Choose(uint32(i))]
@@ -257,7 +271,7 @@ func genTxScenario(c *Ctx, w *TxWorld, o txGenOpts) *txScenario {
 		if o.mkTx != nil {
 			ts.tx, ts.relevant = o.mkTx(w, ts.spends, 1+int(t.Choose(3)))
 		} else {
-			ts.relevant = t.Bool(3, 4)
+			ts.relevant = t.Bool(3, 4) || outage
 			var rel []byte
 			if ts.relevant {
 				rel = subKey
@@ -286,6 +300,15 @@ func genTxScenario(c *Ctx, w *TxWorld, o txGenOpts) *txScenario {
 				ts.holders[dl.src] = true
 			}
 		}
+		if outage {
+			c.FaultConfigured("F-fetch-outage")
+			ts.outageUntil = base + 3*time.Second
+			for d := range ts.deliveries {
+				ts.deliveries[d].at += 4 * time.Second
+			}
+			push := txDelivery{at: base, src: fmt.Sprintf("u%d", t.Choose(uint32(sc.untrusted))), kind: "tx"}
+			ts.deliveries = append([]txDelivery{push}, ts.deliveries...)
+		}
 		sc.txs = append(sc.txs, ts)
 	}
 	if o.blocks {
@@ -305,6 +328,9 @@ func genTxScenario(c *Ctx, w *TxWorld, o txGenOpts) *txScenario {
 					continue
 				}
 				ok := true
+				if ts.outageUntil > 0 && sc.blocks[b].at < ts.outageUntil+time.Second {
+					ok = false // the block processor needs the outputs too
+				}
 				for _, op := range ts.spends {
 					if spent[op] {
 						ok = false
@@ -342,6 +368,11 @@ func genTxScenario(c *Ctx, w *TxWorld, o txGenOpts) *txScenario {
 		}
 	}
 	sc.horizon = span + 8*time.Second
+	for _, ts := range sc.txs {
+		if ts.outageUntil > 0 && ts.outageUntil+8*time.Second > sc.horizon {
+			sc.horizon = ts.outageUntil + 8*time.Second
+		}
+	}
 	return sc
 }
 
@@ -421,6 +452,24 @@ func newTxRun(c *Ctx, sc *txScenario, ns *NodeSim) *txRun {
 			p.ServeTx = func(id bitcoin.Hash32) *wire.MsgTx { return tr.serve(name, id) }
 		}
 		repo.Save(ctx)
+	}
+	ns.TxW.FetchFailOps = func(ops []wire.OutPoint) bool {
+		now := ns.S.Now()
+		for _, ts := range sc.txs {
+			if ts.outageUntil == 0 || tr.origin == 0 || now >= tr.origin+ts.outageUntil {
+				continue
+			}
+			for _, op := range ops {
+				for _, sp := range ts.spends {
+					if op == sp {
+						c.FaultFired("F-fetch-outage")
+						simrt.Eventf("fault", "output service cannot answer for T%d's inputs", ts.idx)
+						return true
+					}
+				}
+			}
+		}
+		return false
 	}
 	if sc.slowHandler {
 		c.FaultConfigured("F-slow")
